@@ -48,12 +48,12 @@ INF_REPS = {
 }
 
 
-def lib_point(g, pt, scale=None, inf_rep=0):
+def lib_point(g, pt, scale=None, inf_rep=0, fq_coeffs=False):
     """Model point -> optimized_bls12_381 projective triple."""
     m = OB()
     if pt is None:
         return m.pt(g, None, inf_rep=INF_REPS[g][inf_rep % len(INF_REPS[g])])
-    return m.pt(g, pt, scale=scale)
+    return m.pt(g, pt, scale=scale, fq_coeffs=fq_coeffs)
 
 
 def back(g, libpt):
